@@ -56,12 +56,33 @@ func (r RaceReport) Writer() string {
 	return strings.Join(ws, " & ")
 }
 
+// Reader is the function that performed the unsynchronised read: the innermost bio-rd function outside the value-object
+// packages on the reading side; when that side is a consumer calling a value-object method directly on something a
+// table handed out, the method it called (the entry point). "" if both sides wrote.
+func (r RaceReport) Reader() string {
+	for _, x := range []RaceAccess{r.A, r.B} {
+		h := strings.ToLower(x.Header)
+		if strings.HasPrefix(h, "read") || strings.HasPrefix(h, "previous read") || strings.HasPrefix(h, "atomic read") || strings.HasPrefix(h, "previous atomic read") {
+			if x.Entry == "" {
+				return "(consumer)"
+			}
+			if f := x.actorOr(""); f != "" {
+				return f
+			}
+			return x.Entry
+		}
+	}
+	return ""
+}
+
 // dataPkgs are bio-rd's value-object packages: a frame there (Prepend, Copy, ToProto, …) says which field was touched,
 // not who decided to touch it.
 var dataPkgs = []string{bioPrefix + "route.", bioPrefix + "route/api.", bioPrefix + "protocols/bgp/types.", bioPrefix + "net.", bioPrefix + "net/api."}
 
 // actor is the innermost bio-rd function outside the value-object packages (the innermost bio-rd function if there is none).
-func (a RaceAccess) actor() string {
+func (a RaceAccess) actor() string { return a.actorOr(a.Inner) }
+
+func (a RaceAccess) actorOr(def string) string {
 	for _, f := range a.Frames {
 		if !strings.HasPrefix(f, bioPrefix) {
 			continue
@@ -76,7 +97,7 @@ func (a RaceAccess) actor() string {
 			return ShortFunc(f)
 		}
 	}
-	return a.Inner
+	return def
 }
 
 // WriteEntry is the entry point of the (first) writing side.
